@@ -123,6 +123,11 @@ class PlainLib:
         self.dec.restype = ctypes.c_int
         self.dec.argtypes = [ctypes.c_char_p, ctypes.c_void_p, ctypes.c_int, ctypes.c_int, ctypes.c_char_p, ctypes.c_int]
         self.buf = ctypes.create_string_buffer(8 * MB + 16)
+        self.xxh = L.LZ4_XXH32
+        self.xxh.restype = ctypes.c_uint
+        self.xxh.argtypes = [ctypes.c_char_p, ctypes.c_size_t, ctypes.c_uint]
+    def xxh32(self, b):
+        return self.xxh(b, len(b), 0)
     def block_size(self, blk, hist):
         r = self.dec(blk, self.buf, len(blk), 8 * MB, hist, len(hist))
         return r
@@ -141,6 +146,9 @@ def parse_frame(lib, F, content, dict_=b""):
         d["csize"] = struct.unpack_from("<Q", F, p)[0]; p += 8
     if flg & 1:
         d["dictid"] = struct.unpack_from("<I", F, p)[0]; p += 4
+    crc_ok, crc_what = True, ""
+    if ((lib.xxh32(F[4:p]) >> 8) & 0xFF) != F[p]:
+        crc_ok, crc_what = False, "header checksum"
     p += 1
     blocks, raw = [], []
     off = 0
@@ -153,6 +161,8 @@ def parse_frame(lib, F, content, dict_=b""):
         n = w & 0x7FFFFFFF
         data = F[p:p + n]; p += n
         if d["bcrc"]:
+            if p + 4 > len(F) or struct.unpack_from("<I", F, p)[0] != lib.xxh32(data):
+                crc_ok, crc_what = False, "block checksum of block %d" % len(blocks)
             p += 4
         if w >> 31:
             sz = n
@@ -164,7 +174,10 @@ def parse_frame(lib, F, content, dict_=b""):
         raw.append(w >> 31)
         blocks.append(sz); off += sz
     if d["ccrc"]:
+        if p + 4 > len(F) or struct.unpack_from("<I", F, p)[0] != lib.xxh32(content):
+            crc_ok, crc_what = False, "content checksum"
         p += 4
+    d["crc_ok"], d["crc_what"] = crc_ok, crc_what
     d["blocks"] = blocks
     d["raw"] = raw
     d["end"] = p
